@@ -37,9 +37,13 @@ def run_config(chk, tier, cfgname):
                 if s["k"] == "assign" and s["r"]["k"] == "agg" and s["r"]["ak"].get("def") == "arena::MarkedArena":
                     sites.append(prog.fn_of_closure(__import__("gcv.model", fromlist=["norm"]).norm(d_raw)))
     chk.floor("MarkedArena-construction-sites", len(sites), 1)
-    bad = [s for s in sites if s not in ("arena::Arena::mark_debt", "arena::Arena::finish_marking")]
+    # the two protocol-checked methods are interpreted end to end (private helpers below them included), so a
+    # construction site is covered when it is reachable only through them
+    checked = {"arena::Arena::mark_debt", "arena::Arena::finish_marking"}
+    bad = sorted({s for s in sites if common.escapes(prog, s, checked) is not None})
     chk.inst("MarkedArena-constructed-only-by-protocol-checked-methods", "arena::MarkedArena", not bad,
-             detail="MarkedArena constructed in %s, whose Some/None contract is not covered by the protocol rows" % bad)
+             detail="MarkedArena constructed in %s, reachable from outside mark_debt / finish_marking, whose Some/None "
+                    "contract is what the protocol rows cover" % bad)
     typestate.report_automaton(chk, ["S2", "S7"])
 
 
